@@ -14,6 +14,7 @@ Property on the real code, independent of the model: for an AST `e` rendered to 
 """
 from __future__ import annotations
 
+import itertools
 import json
 from itertools import count
 from typing import Optional, Sequence
@@ -26,15 +27,20 @@ from harness import rx_common as R
 from harness.common import Ctx, InfraError, Toks, call, toks
 
 LEVEL = "proof"
-RULE = ("cases = (AST of the documented syntax, concrete rendering with redundant parentheses/blanks, alphabet); "
+RULE = ("cases = (AST of the documented syntax, concrete rendering with redundant parentheses/blanks — also blanks "
+        "inside quantifier braces and leading zeros in bounds —, alphabet); "
         "corpus of past defects, then every AST of depth ≤1 over {a,b} with all bounds from {∅,0,1,2,3} in three "
-        "renderings (thorough: depth ≤2 with a reduced bound set), then shaped random ASTs of depth ≤4; "
+        "renderings (thorough: depth ≤2 with a reduced bound set), then shaped random ASTs of depth ≤4 with bounds "
+        "from {∅,0..6,007,10,12} over alphabets of 1–7 symbols incl. the characters 1 , - é 𝒳; "
         "non-trivial = the AST has ≥2 operator nodes and denotes ≥2 words of length ≤N; "
         "distinct = distinct (string, alphabet)")
 ASSUMPTIONS = [
     "symbols are single non-blank, non-reserved characters; repetition bounds are ASCII decimal numerals",
-    "Python re / int() / set / dict are modelled by hand (trusted); state names are compared up to isomorphism",
-    "repetition bounds in generated cases are ≤3 (the theorems have no bound)",
+    "Python re / int() / set / dict are modelled by hand (trusted); compiled NFAs are compared up to isomorphism "
+    "AND on their sets of state names (the counter is reproduced; only the assignment inside a renamed block may "
+    "be permuted)",
+    "repetition bounds in generated cases are ≤12 (the theorems have no bound); NFAs with more than 140 states are "
+    "skipped (counted, and reported as a note)",
 ]
 EXPLANATION = ("C10_* theorems: the builder model's NFA accepts exactly den(e) for every AST, the pipeline "
                "lexer→validator→concat insertion→shunting-yard→postfix evaluation yields that builder run; "
@@ -66,15 +72,28 @@ CORPUS = [
     (("star", ("shuf", ("lit", "a"), ("lit", "b"))), "ab"),
     (("cat", ("and", ("lit", "a"), ("lit", "b")), ("lit", "a")), "ab"),
     (("cat", ("any",), ("eps",)), "ab"), (("shuf", ("eps",), ("eps",)), "ab"),
+    # larger / multi-digit / leading-zero bounds (7 is spelled 007)
+    (("rep", ("lit", "a"), 10, 12), "a"), (("rep", ("alt", ("lit", "a"), ("lit", "b")), 7, None), "ab"),
+    (("rep", ("cat", ("lit", "a"), ("opt", ("lit", "b"))), 5, 6), "ab"), (("rep", ("lit", "a"), None, 10), "ab"),
+    (("rep", ("rep", ("lit", "a"), 2, 3), 4, 4), "a"), (("cat", ("rep", ("any",), 6, 6), ("lit", "b")), "ab"),
+    # symbols that also occur inside quantifier braces, non-ASCII, non-BMP
+    (("rep", ("lit", "1"), 1, 2), "1,"), (("cat", ("rep", ("lit", ","), 1, 2), ("lit", ",")), "1,"),
+    (("alt", ("cat", ("lit", "-"), ("lit", "1")), ("rep", ("lit", ","), 0, 1)), "1,-"),
+    (("star", ("alt", ("lit", "\u00e9"), ("lit", "\U0001d4b3"))), "\u00e9\U0001d4b3"),
+    (("shuf", ("lit", "\U0001d4b3"), ("rep", ("any",), 1, 2)), "a\u00e9\U0001d4b3-,"),
 ]
 RAW_CORPUS = ["", " ", "\t ", "()", "( )", "(())", "a{0,0}", "a{,0}", "a{ 1 , 2 }", "a{1,2}{0,1}", "a**", "a+?",
               "(a|b)&(b|a)", "a^b^a", "a|b&a^b", ".{2,}", "a{2}", "a{2,1}", "a{-1,2}", "a{x,2}", "a{", "a}", "a|", "|a",
-              "(a", "a)", ")(", "(|a)", "(a|)", "a(*)", "a\nb", "a{1\n,2}", "é*", "a,b", "a{1_0,}"]
+              "(a", "a)", ")(", "(|a)", "(a|)", "a(*)", "a\nb", "a{1\n,2}", "é*", "a,b", "a{1_0,}",
+              "a{ 1 ,\t2 }", "a{ ,2}", "a{1, }", "a{007,010}", "a{ 007 , }", "1{1,1}1", ",{,1},", "-{1,}", "𝒳{2,2}é"]
+
+
+BLANK_ONLY = [""] + ["".join(t) for k in (1, 2, 3) for t in itertools.product(" \t", repeat=k)]
 
 
 def n_words(sigma) -> int:
     k = len(sigma)
-    return 5 if k <= 2 else (4 if k == 3 else 3)
+    return 5 if k <= 2 else (4 if k == 3 else (3 if k <= 7 else 2))
 
 
 def stage_observe(s: str, sigma):
@@ -117,7 +136,7 @@ def model_compile(ctx: Ctx, s: str, sigma):
     return t.res(t.nfa)
 
 
-def property_on_real(nfa, e, sigma: Sequence[str], n: Optional[int] = None):
+def property_on_real(nfa, e, sigma: Sequence[str], n: Optional[int] = None, ctx: Optional[Ctx] = None):
     """None if the real NFA accepts exactly den(e) (as far as the two oracles can tell), else a
     description + the failing word."""
     sig = sorted(sigma)
@@ -133,11 +152,18 @@ def property_on_real(nfa, e, sigma: Sequence[str], n: Optional[int] = None):
         exact = R.nfa_vs_ast(nfa, e, sig)
     except R.OracleBudget:
         exact = "budget"
+        if ctx is not None:
+            ctx.stat("oracle_budget_fallback")     # only the brute-force oracle (words of length ≤ N) judged this case
     if brute is None and exact not in (None, "budget"):
         w, verdict = exact
         # the shortest distinguishing word is longer than N: confirm it through the real reader
         # and a third, structural-recursion membership test
-        confirmed = R.matches(e, w, sig) == verdict if (len(w) <= 14 or "shuf" not in R.ops_of(e)) else True
+        if len(w) <= 14 or "shuf" not in R.ops_of(e):
+            confirmed = R.matches(e, w, sig) == verdict
+        else:
+            confirmed = True      # third oracle too expensive (2^|w| splits for shuffle): derivatives trusted
+            if ctx is not None:
+                ctx.stat("long_shuffle_witness_unconfirmed")
         if confirmed and nfa.accepts_input(w) != verdict:
             brute = (w, verdict)
         else:
@@ -172,7 +198,7 @@ def check_case(ctx: Ctx, s: str, sigma, e, origin: str, style: str = "raw"):
                 ctx.prop_fail(f"valid expression {s!r} does not compile: {real[1]}", dict(case, kind="compile"), None)
                 failed = True
             else:
-                bad = property_on_real(real[1], e, eff_sigma)
+                bad = property_on_real(real[1], e, eff_sigma, ctx=ctx)
                 nw = len(R.den_words(e, eff_sigma, n_words(eff_sigma)))
                 ctx.stat("lang_empty" if nw == 0 else ("lang_one_word" if nw == 1 else "lang_many"))
                 if R.size(e) >= 3 and nw >= 2:
@@ -203,7 +229,11 @@ def check_case(ctx: Ctx, s: str, sigma, e, origin: str, style: str = "raw"):
     if real[0] == "err" or mod[0] == "err":
         same = real[0] == mod[0] and real[1] == mod[1]
     else:
-        same = R.nfa_iso(R.plain_real_nfa(real[1]), mod[1])
+        pr = R.plain_real_nfa(real[1])
+        same = R.nfa_iso(pr, mod[1])
+        if same and set(pr["states"]) != set(mod[1]["states"]):
+            same = False                      # isomorphic, but the counter / name block is not reproduced
+            ctx.stat("names_differ")
     if not same and not failed:
         ctx.corr_diff("RX_COMPILE", case,
                       real[1] if real[0] == "err" else repr(real[1])[:600],
@@ -214,6 +244,33 @@ def check_case(ctx: Ctx, s: str, sigma, e, origin: str, style: str = "raw"):
 
 
 STYLES = ("min", "full", "blank")
+# alphabets of the shaped-random stream: small ones (long words reachable by brute force), symbols that are a
+# digit / comma / minus (they also occur inside quantifier braces), non-ASCII and non-BMP symbols, and two
+# alphabets with ≥5 symbols
+ALPHABETS = ["ab", "ab", "ab", "abc", "a", "ba", "a1,", "\u00e9\U0001d4b3-", "abcde", "ab1,-\u00e9\U0001d4b3"]
+
+
+def max_bound(e) -> int:
+    m = 0
+    if e[0] == "rep":
+        m = max(e[2] or 0, e[3] or 0)
+    return max([m] + [max_bound(x) for x in e[1:] if isinstance(x, tuple)])
+
+
+def final_notes(ctx: Ctx):
+    """Silent degradations become notes of the evidence."""
+    k = ctx.stats.get("oracle_budget_fallback", 0)
+    if k:
+        ctx.note(f"{k} case(s): the exact derivative oracle hit its budget; those were judged by the brute-force "
+                 f"oracle only (every word of length ≤N through the real accepts_input)")
+    k = ctx.stats.get("skipped_too_many_states", 0)
+    if k:
+        ctx.note(f"{k} generated case(s) skipped before property and correspondence: the compiled NFA has more than "
+                 f"{MAX_STATES} states")
+    k = ctx.stats.get("long_shuffle_witness_unconfirmed", 0)
+    if k:
+        ctx.note(f"{k} case(s): a distinguishing word longer than 14 symbols under shuffle was confirmed by the real "
+                 f"reader against the derivative oracle only (third oracle skipped)")
 
 
 def run(ctx: Ctx):
@@ -225,6 +282,13 @@ def run(ctx: Ctx):
     for s in RAW_CORPUS:
         check_case(ctx, s, None, None, "corpus_raw")
         check_case(ctx, s, "ab", None, "corpus_raw")
+    # the empty regex and blank-only regexes (theorem C10_blank_only; fix 9e58d22): outside the grammar, they
+    # compile to the {ε} NFA over the default alphabet and over every explicit one
+    for s in BLANK_ONLY:
+        for sigma in (None, "ab", "a", "\u00e9\U0001d4b3-", "ab1,-\u00e9\U0001d4b3"):
+            check_case(ctx, s, sigma, ("eps",), "blank_only")
+    ctx.exhaustive("every string of ≤3 blanks (space / tab), default alphabet and four explicit alphabets: "
+                   "compiles to an NFA accepting exactly the empty word")
     # 2. bounded-exhaustive
     allq = R.all_quants()
     for e in R.asts_upto("ab", 1, allq):
@@ -247,22 +311,28 @@ def run(ctx: Ctx):
             check_case(ctx, R.render(e, st), "ab", e, "sampled_depth2", st)
     # 3. shaped random, depth ≤ 4
     for _ in range(ctx.budget(2500, 60000)):
-        alpha = rng.choice(["ab", "ab", "abc", "a", "ba"])
+        alpha = rng.choice(ALPHABETS)
         d = rng.choice([2, 3, 3, 4])
-        e = R.rand_ast(rng, alpha, d, p_foreign=0.03)
+        e = R.rand_ast(rng, alpha, d, p_foreign=0.03, p_wide=0.3)
         if R.size(e) > 14:
             ctx.stat("regenerated_too_big")
             continue
+        ctx.stat(f"alphabet_size_{len(alpha)}")
+        if any(c in R.ODD_LITERALS for c in R.lits_of(e)):
+            ctx.stat("odd_literal_used")
+        if max_bound(e) >= 4:
+            ctx.stat("bound_ge4")
         r = rng.random()
         if r < 0.55:
             sigma = alpha
         elif r < 0.75:
-            sigma = alpha + rng.choice(["c", "d", "x"])
+            sigma = alpha + rng.choice([c for c in "cdx" if c not in alpha])
         else:
             sigma = None  # default alphabet: the non-reserved characters of the string
         st = rng.choice(["min", "full", "blank", "extra", "extra"])
         s = R.render(e, st, rng)
         check_case(ctx, s, sigma, e, "random", st)
+    final_notes(ctx)
 
 
 def search(ctx: Ctx):
